@@ -34,9 +34,36 @@ def ybytes(b):
 class Printer:
     """names: list of string identifiers (without $) indexed by variable index; idents: bound identifier names."""
 
-    def __init__(self, names, rule_names=None):
+    def __init__(self, names, rule_names=None, sugar=0):
         self.names = names
         self.rule_names = rule_names or []
+        self.sugar = sugar      # bit 0: `them` for the full set; bit 1: wildcards `$prefix*` where a prefix class is covered
+
+    def sset(self, vs):
+        """The string set `vs` as YARA text.  With sugar, the same set through `them` or wildcards (the compiler
+        resolves both to the explicit list, in declaration order — the order the model iterates in)."""
+        names = self.names
+        if self.sugar & 1 and list(vs) == list(range(len(names))):
+            return "them"
+        if self.sugar & 2 and list(vs) == sorted(set(vs)):
+            out, i, vs = [], 0, list(vs)
+            while i < len(vs):
+                best = None
+                # the longest run vs[i:j] that is exactly the class of some prefix of names[vs[i]]
+                for plen in range(1, len(names[vs[i]]) + 1):
+                    pre = names[vs[i]][:plen]
+                    cls = [k for k, n in enumerate(names) if n.startswith(pre)]
+                    if cls and cls[0] == vs[i] and vs[i:i + len(cls)] == cls:
+                        best = (pre, len(cls))
+                        break
+                if best and (best[1] > 1 or self.sugar & 4):
+                    out.append("$%s*" % best[0])
+                    i += best[1]
+                else:
+                    out.append("$" + names[vs[i]])
+                    i += 1
+            return "(" + ", ".join(out) + ")"
+        return "(" + ", ".join("$" + names[v] for v in vs) + ")"
 
     # ---------------- YARA
     def vname(self, v, sigil):
@@ -90,12 +117,16 @@ class Printer:
             return "(defined %s)" % self.y(e[1], depth)
         if t == "for":
             _, k, se, vs, body = e
-            sset = "(" + ", ".join("$" + self.names[v] for v in vs) + ")"
-            return "(for %s of %s : (%s))" % (self.sel_y(k, se, depth), sset, self.y(body, depth))
+            return "(for %s of %s : (%s))" % (self.sel_y(k, se, depth), self.sset(vs), self.y(body, depth))
         if t == "of":     # sugar: body is the anonymous variable
             _, k, se, vs = e
-            sset = "(" + ", ".join("$" + self.names[v] for v in vs) + ")"
-            return "(%s of %s)" % (self.sel_y(k, se, depth), sset)
+            return "(%s of %s)" % (self.sel_y(k, se, depth), self.sset(vs))
+        if t == "ofat":   # `N of (set) at X` = for N of (set) : ($ at X)
+            _, k, se, vs, x = e
+            return "(%s of %s at %s)" % (self.sel_y(k, se, depth), self.sset(vs), self.y(x, depth))
+        if t == "ofin":   # `N of (set) in (A..B)` = for N of (set) : ($ in (A..B))
+            _, k, se, vs, a, b = e
+            return "(%s of %s in (%s..%s))" % (self.sel_y(k, se, depth), self.sset(vs), self.y(a, depth), self.y(b, depth))
         if t == "forrange":
             _, k, se, f, to, body = e
             return "(for %s i%d in (%s..%s) : (%s))" % (self.sel_y(k, se, depth), depth, self.y(f, depth),
@@ -170,6 +201,14 @@ class Printer:
             _, k, se, vs = e
             ks, ses = self.gsel(k, se)
             return "(EFor %s %s %s (EVar None))" % (ks, ses, glist("%d%%nat" % v for v in vs))
+        if t == "ofat":
+            _, k, se, vs, x = e
+            ks, ses = self.gsel(k, se)
+            return "(EFor %s %s %s (EVarAt None %s))" % (ks, ses, glist("%d%%nat" % v for v in vs), self.g(x))
+        if t == "ofin":
+            _, k, se, vs, a, b = e
+            ks, ses = self.gsel(k, se)
+            return "(EFor %s %s %s (EVarIn None %s %s))" % (ks, ses, glist("%d%%nat" % v for v in vs), self.g(a), self.g(b))
         if t == "forrange":
             _, k, se, f, to, body = e
             ks, ses = self.gsel(k, se)
@@ -198,9 +237,10 @@ class Gen:
     """Typed random conditions over `nvars` strings.  `in_for` = an anonymous variable is selected;
     `depth_id` = number of bound identifiers in scope."""
 
-    def __init__(self, rng, nvars, mem_len, exts=(), max_depth=4, allow_for=True):
+    def __init__(self, rng, nvars, mem_len, exts=(), max_depth=4, allow_for=True, of_at_in=False):
         self.r, self.nvars, self.mem_len, self.exts, self.max_depth = rng, nvars, mem_len, list(exts), max_depth
         self.allow_for = allow_for
+        self.of_at_in = of_at_in      # `N of (set) at X` / `N of (set) in (A..B)`
 
     def var(self, in_for):
         if in_for and self.r.chance(1, 2):
@@ -334,6 +374,16 @@ class Gen:
         if c == 17:
             vs = sorted(set(r.below(self.nvars) for _ in range(r.range(1, self.nvars + 1))))
             k, se = self.gsel(d - 1, in_for, nid, len(vs), True)
+            if self.of_at_in and r.chance(1, 2):
+                # the position expressions are compiled outside the loop (no anonymous string of their own) and
+                # evaluated once per selected string
+                if r.chance(1, 2):
+                    return ("ofat", k, se, vs, r.choice([self.small(), self.gint(min(d - 1, 1), in_for, nid),
+                                                         ("offset", r.below(self.nvars), ("int", r.choice([1, 1, 2])))]))
+                lo = r.choice([("int", r.choice([0, 0, 1, 3])), self.gint(min(d - 1, 1), in_for, nid)])
+                hi = r.choice([self.small(), ("filesize",), ("bin", "add", lo, ("int", r.choice([0, 1, 2, 5]))),
+                               self.gint(min(d - 1, 1), in_for, nid)])
+                return ("ofin", k, se, vs, lo, hi)
             return ("of", k, se, vs)
         if c <= 19 and nid < 3:
             k, se = self.gsel(d - 1, in_for, nid, 0, False)
